@@ -55,6 +55,7 @@ def _quantify_entity(
     :param quantifier_kwargs: Keyword arguments to pass to the quantifier.
     :return: The quantified entity.
     """
-    if isinstance(entity_, Match) and not entity_.variable:
+    if isinstance(entity_, Match):
+        # the expression is built once (cached); a pattern that was quantified before has its variable set already
         entity_ = entity_.expression
     return quantifier(entity_, **quantifier_kwargs)
